@@ -8,7 +8,7 @@
    the plan = the operation completed). *)
 From Coq Require Import NArith List Bool.
 From V Require Import Model.Crash Proofs.CrashProofsA Proofs.CrashProofsB Proofs.CrashProofsC Proofs.CrashProofsD Proofs.CrashProofsE
-  Proofs.CrashProofsF Proofs.CrashProofsG.
+  Proofs.CrashProofsF Proofs.CrashProofsG Model.CrashShared Proofs.CrashProofsS.
 Import ListNotations.
 Open Scope N_scope.
 
@@ -304,6 +304,49 @@ Theorem crash_transfer_artifacts_prefix : forall s l k, ovl s = None -> insert_o
 Proof. exact transfer_crash_prefix_l. Qed.
 Print Assumptions crash_transfer_artifacts_prefix.
 
+(* ================================================================================================================
+   Shared artifacts (Model/CrashShared.v): ONE file for several datasets -- Butler.ingest of a FileDataset with several
+   refs, Butler.ingest_zip.  Records are (dataset id, artifact) pairs; operations are lists of durable effects.
+   ================================================================================================================ *)
+
+(* 12. At EVERY crash point of EVERY removal (purge, unstore, Datastore.trash, emptyTrash; any row order) a located dataset
+       that is not a target keeps its rows, its record AND its artifact file -- also when it shares that file with the
+       targets (one member of a zip purged, one ref of a multi-ref ingest unstored): a fresh Butler reads it as before. *)
+Theorem shared_bystander_intact : forall s o d a k,
+  sdisj (sb s) -> s_is_removal o = true -> s_target o d = false ->
+  mem d (s_loc (sb s)) = true -> art_of (sb s) d = Some a ->
+  let u := scrash s (splan s o) k in
+  mem d (s_loc (sb u)) = true /\ mem d (s_trash (sb u)) = false /\ art_of (sb u) d = Some a
+  /\ mem d (s_ds (sb u)) = mem d (s_ds (sb s)) /\ fget (Final a) (sf u) = fget (Final a) (sf s) /\ sget u d = sget s d.
+Proof.
+  intros s o d a k D R T L A u. destruct (shared_bystander_l s o d a k D R T L A) as (H1 & H2 & H3 & H4 & H5). fold u in H1, H2, H3, H4, H5.
+  repeat split; auto. unfold sget. rewrite H3, A, H5. reflexivity.
+Qed.
+Print Assumptions shared_bystander_intact.
+
+(* its premise `sdisj` (located and pending exclude each other) survives every crash of every removal *)
+Theorem shared_disjoint_preserved : forall s o k, sdisj (sb s) -> s_is_removal o = true -> sdisj (sb (scrash s (splan s o) k)).
+Proof. exact sdisj_crash_removal_l. Qed.
+Print Assumptions shared_disjoint_preserved.
+
+(* 13. A multi-ref ingest / ingest_zip (one artifact a with content v for the refs l) interrupted ANYWHERE is JOINTLY
+       all-or-nothing: no committed row has changed, or the state is the completed call's and EVERY ref is registered,
+       located, recorded against the artifact and reads the content. *)
+Theorem shared_ingest_joint_all_or_nothing : forall s mv a v l k, sstore_ok (sb s) l = true ->
+  let o := SStore mv a v l in
+  let u := scrash s (splan s o) k in
+  sb u = sb s
+  \/ (u = srun_op s o
+      /\ forall d, mem d l = true ->
+           mem d (s_ds (sb u)) = true /\ mem d (s_loc (sb u)) = true /\ art_of (sb u) d = Some a /\ sget u d = GotValue v).
+Proof. exact shared_store_joint_l. Qed.
+Print Assumptions shared_ingest_joint_all_or_nothing.
+
+(* 14. Never a partial file under a final name, zip included: after every prefix of every plan of the shared model. *)
+Theorem shared_no_partial_final : forall s o k a, J (sf s) -> fget (Final a) (sf (scrash s (splan s o) k)) <> Some Partial.
+Proof. intros s o k a H. destruct (shared_no_partial_l s o k H a) as [X _]. exact X. Qed.
+Print Assumptions shared_no_partial_final.
+
 (* ---- non-vacuity: the hypotheses are met by reachable, non-trivial states ------------------------------------ *)
 Example ex_bystander :
   let s := run init [Put 0 1; Put 1 2; IngestMove 4] in
@@ -369,4 +412,23 @@ Example ex_transfer_prefix :
   let s := run init [Put 0 1] in
   let u := crash s (plan s (Transfer [5; 2; 3])) 7 in       (* second artifact written under its temporary name *)
   cdb u = cdb s /\ fget (Final 5) (fs u) = Some (Complete 205) /\ fget (Final 2) (fs u) = None /\ fget (Final 3) (fs u) = None.
+Proof. vm_compute. repeat split. Qed.
+
+(* shared artifacts: a zip (artifact 50) with members 0, 4, 2 next to dataset 1; purging member 4 and dataset 1 keeps the zip
+   at every crash point, members 0 and 2 read back; purging all members deletes it *)
+Example ex_shared_zip :
+  let s := srun sinit [SStore false 1 11 [1]; SStore false 50 7000 [0; 4; 2]] in
+  let o := SPrune [4; 1] [] in
+  sdisj (sb s) /\ s_target o 0 = false /\ art_of (sb s) 0 = Some 50 /\ length (splan s o) = 3%nat
+  /\ fget (Final 50) (sf (srun_op s o)) = Some (Complete 7000) /\ fget (Final 1) (sf (srun_op s o)) = None
+  /\ sget (srun_op s o) 2 = GotValue 7000
+  /\ fget (Final 50) (sf (srun_op (srun_op s o) (SPrune [0; 2] []))) = None.
+Proof. vm_compute. repeat split; intros; discriminate. Qed.
+
+Example ex_shared_multi_ref_joint :
+  let s := srun sinit [SStore false 0 11 [0]] in
+  let o := SStore false 2 102 [2; 3] in
+  sstore_ok (sb s) [2; 3] = true /\ length (splan s o) = 4%nat
+  /\ sb (scrash s (splan s o) 3) = sb s /\ fget (Final 2) (sf (scrash s (splan s o) 3)) = Some (Complete 102)
+  /\ sget (scrash s (splan s o) 4) 3 = GotValue 102.
 Proof. vm_compute. repeat split. Qed.
